@@ -19,6 +19,16 @@ ALPHA = [0x61, 0x20, 0x5f, 0x09, 0x7f, 0x80, 0xe9, 0x62a, 0x7ff, 0x800, 0x20ac, 
 SMALL = [0x61, 0xe9, 0x20ac, 0x1f600, 0x301, 0x20]
 
 
+def cls(b0):
+    """isspace | isprint << 1 | isalpha << 2 | isdigit << 3 of uc.c's character classes, from the first byte (C locale)"""
+    c = b0
+    sp = c <= 0x7f and chr(c) in ' \t\n\r\v\f'
+    pr = c > 0x7f or 0x20 <= c <= 0x7e
+    al = c > 0x7f or (0x41 <= c <= 0x5a) or (0x61 <= c <= 0x7a)
+    dg = 0x30 <= c <= 0x39
+    return int(sp) | int(pr) << 1 | int(al) << 2 | int(dg) << 3
+
+
 def enc(c):
     return chr(c).encode('utf-8')
 
@@ -67,6 +77,7 @@ def oracle_str(cs, line):
     prv = ints(d['prev'])
     end = ints(d['end'])
     knd = ints(d['kind'])
+    cl = ints(d['cls']) if 'cls' in d else None
     for k in range(n + 1):
         b = bounds[k]
         if off[b] != str(k):
@@ -82,6 +93,8 @@ def oracle_str(cs, line):
                 return 'end of character %d at +%s, expected +%d' % (k, end[b], len(encs[k]) - 1)
             if knd[b] != str(kind(encs[k][0])):
                 return 'kind of character %d: %s' % (k, knd[b])
+            if cl is not None and cl[b] != str(cls(encs[k][0])):
+                return 'character classes (isspace|isprint<<1|isalpha<<2|isdigit<<3) of character %d (first byte 0x%02x): %s, expected %d' % (k, encs[k][0], cl[b], cls(encs[k][0]))
         if k > 0 and prv[b] != str(len(encs[k - 1])):
             return 'previous of boundary %d moves %s bytes, expected %d (next does not undo previous)' % (k, prv[b], len(encs[k - 1]))
     if n <= 6:
